@@ -151,3 +151,84 @@ def port_reads(chunks: list[bytes], use_real_protocol: bool = False):
         return list(got), raised, excs, list(logcap.CAP.records)
     finally:
         dispose_loop(loop)
+
+
+class FakeMqttClient:
+    """Stands where paho.mqtt.client.Client would: no thread, no socket."""
+
+    def __init__(self, *a, **k):
+        self.published: list = []
+        self.on_connect = self.on_disconnect = self.on_message = None
+
+    def username_pw_set(self, *a):
+        pass
+
+    def connect_async(self, *a, **k):
+        pass
+
+    def loop_start(self):
+        pass
+
+    def loop_stop(self):
+        pass
+
+    def subscribe(self, *a, **k):
+        pass
+
+    def unsubscribe(self, *a, **k):
+        pass
+
+    def disconnect(self):
+        pass
+
+    def publish(self, topic, payload=None, qos=0):
+        self.published.append((topic, payload))
+        return True
+
+
+def mqtt_messages(lines: list[str], stamps: list[str] | None = None, use_real_protocol: bool = True):
+    """Hand each line to the real MqttTransport._on_message inside a well-formed ramses_esp JSON envelope.
+
+    Returns (messages handled, [(index, exception type, text)] raised out of the callback, loop exceptions, log records)."""
+    import json
+
+    import ramses_tx.transport as T
+
+    loop = install_loop()
+    logcap.CAP.reset()
+    real_client = T.mqtt.Client
+    try:
+        T.mqtt.Client = FakeMqttClient
+        if use_real_protocol:
+            from ramses_tx.protocol import ReadProtocol
+
+            got: list = []
+            proto = ReadProtocol(got.append)
+        else:
+            proto = RecProtocol()
+            got = proto.pkts
+        tr = T.MqttTransport("mqtt://user:pw@localhost:1883/RAMSES/GATEWAY/18:123456", proto, loop=loop)
+
+        class Msg:
+            def __init__(self, topic, payload):
+                self.topic, self.payload, self.timestamp = topic, payload, 0.0
+
+        tr._on_message(None, None, Msg("RAMSES/GATEWAY/18:123456", b"online"))
+        loop.settle()
+        raised = []
+        for k, ln in enumerate(lines):
+            ts = stamps[k] if stamps else f"2024-02-29T12:05:{k // 10 % 60:02d}.{k % 10}00000+00:00"
+            body = json.dumps({"msg": ln, "ts": ts}).encode()
+            try:
+                tr._on_message(None, None, Msg("RAMSES/GATEWAY/18:123456/rx", body))
+            except Exception as e:  # noqa: BLE001
+                raised.append((k, type(e).__name__, str(e)[:160]))
+            loop.settle()
+        import gc
+
+        gc.collect()
+        excs = [(type(c.get("exception")).__name__, str(c.get("exception"))[:160], c.get("message")) for c in loop.exc]
+        return list(got), raised, excs, list(logcap.CAP.records)
+    finally:
+        T.mqtt.Client = real_client
+        dispose_loop(loop)
